@@ -238,8 +238,8 @@ _reg(DecodeProp(
     "(Modified value incl. X, base value) in seeded random contexts; seeded random full vectors; distinct by string"))
 
 _reg(DecodeProp(
-    "C04", ["CvssVerif.Props.C04"],
-    ["CvssVerif.Props.C04.base2_code_semantics", "CvssVerif.Props.C04.base2_partial", "CvssVerif.Props.C04.base2_known_violate",
+    "C04", ["CvssVerif.Props.C04", "CvssVerif.Props.E2E2"],
+    ["CvssVerif.Props.E2E2.scores_of_string", "CvssVerif.Props.E2E2.temporal_clause_of_string", "CvssVerif.Props.C04.base2_code_semantics", "CvssVerif.Props.C04.base2_partial", "CvssVerif.Props.C04.base2_known_violate",
      "CvssVerif.Props.C04.base2_violated", "CvssVerif.Props.C04.temporal2_grid", "CvssVerif.Props.C04.temporal2_eq"],
     _c04,
     "exhaustive enumeration of the 729 base vectors x (100 temporal combinations + group absent) at the temporal decoder, and of the "
@@ -248,8 +248,8 @@ _reg(DecodeProp(
                  "the theorem claimed for the base clause is base2_partial + base2_code_semantics + base2_known_violate"]))
 
 _reg(DecodeProp(
-    "C05", ["CvssVerif.Props.C05"],
-    ["CvssVerif.Props.C05.env2_partial", "CvssVerif.Props.C05.env2_known_violate", "CvssVerif.Props.C05.env2_violated",
+    "C05", ["CvssVerif.Props.C05", "CvssVerif.Props.E2E2"],
+    ["CvssVerif.Props.E2E2.scores_of_string", "CvssVerif.Props.C05.env2_partial", "CvssVerif.Props.C05.env2_known_violate", "CvssVerif.Props.C05.env2_violated",
      "CvssVerif.Props.C05.env2_absent", "CvssVerif.Props.C05.env2_grid"],
     _c05,
     "exhaustive enumeration of the 46,656 (base, CR, IR, AR) tuples with neutral CDP/TD; every (CDP, TD) pair on seeded random carriers; "
@@ -725,7 +725,7 @@ FORMULA_DEFS = {
 # complete, and losing it without an explanation is reported as the brief prescribes (no-failing-input-found)
 FORMULA_TIE_REQUIRED = ("C03", "C05")
 SRC_MODULE = "CvssVerif.Props.Src"
-SRC_THEOREMS = ["v3_source_is_model", "v2_source_is_model", "base3_source", "temporal3_source", "env3_source", "source_scores_of_string",
+SRC_THEOREMS = ["v3_source_is_model", "v2_source_is_model", "base3_source", "temporal3_source", "env3_source", "source_scores_of_string", "source_scores_of_string2",
                 "severity3_source", "severity2_source"]
 
 
